@@ -329,13 +329,18 @@ func (e StdEng) denseConcat(a DenseTensor, axis int, Ts []DenseTensor) (DenseTen
 		var vmask, Tmask []bool
 		vmask = v.mask
 		v.mask = nil
+		var maskedT MaskedTensor
 		if mt, ok := T.(MaskedTensor); ok && mt.IsMasked() {
 			Tmask = mt.Mask()
 			mt.SetMask(nil)
-
+			maskedT = mt
 		}
 
-		if err = assignArray(v, T); err != nil {
+		err = assignArray(v, T)
+		if maskedT != nil {
+			maskedT.SetMask(Tmask) // the operand's mask was only set aside for the copy: put it back
+		}
+		if err != nil {
 			return nil, errors.Wrap(err, "Unable to assignArray in denseConcat")
 		}
 		// if it's a masked tensor, we copy the mask as well
